@@ -129,7 +129,18 @@ async fn startup_udp<const N: usize>(config: &ServerConfig<SslConfig>, user_mana
                             let mut src = BytesMut::from(&buf[..len]);
                             match SessionCodec::<N>::decode(&codec, &mut src) {
                                 Ok(Some((content, peer_addr, session))) => {
-                                    let key = session.client_session_id;
+                                    // the 2022 ciphers identify a client session by its session id; the legacy ciphers carry
+                                    // no ids at all (every field of `session` is 0): there a session is the client's address
+                                    let has_session_ids = config.cipher.is_aead_2022();
+                                    let key = if has_session_ids {
+                                        session.client_session_id
+                                    } else {
+                                        use std::hash::Hash;
+                                        use std::hash::Hasher;
+                                        let mut hasher = std::collections::hash_map::DefaultHasher::new();
+                                        client_addr.hash(&mut hasher);
+                                        hasher.finish()
+                                    };
                                     // a failure of one association must not stop the service for the others
                                     if let Some(assoc) = net_map.get_mut(&key) {
                                         if let Err(e) = assoc.try_send((content, peer_addr, session)).await {
@@ -137,7 +148,7 @@ async fn startup_udp<const N: usize>(config: &ServerConfig<SslConfig>, user_mana
                                             net_map.remove(&key);
                                         }
                                     } else {
-                                        match UdpAssociateContext::create(&session, client_addr, tx.clone()).await {
+                                        match UdpAssociateContext::create(key, has_session_ids, client_addr, tx.clone()).await {
                                             Ok(assoc) => {
                                                 if let Err(e) = assoc.try_send((content, peer_addr, session)).await {
                                                     error!("[udp] association closed; error={e}");
@@ -188,6 +199,7 @@ impl<const N: usize> Drop for UdpAssociate<N> {
 
 struct UdpAssociateContext<const N: usize> {
     client_session_id: u64,
+    check_packet_id: bool,
     client_session_filter: PacketWindowFilter,
     client_addr: SocketAddr,
     inbound: Sender<(BytesMut, Address, SocketAddr, Session<N>)>,
@@ -199,7 +211,8 @@ struct UdpAssociateContext<const N: usize> {
 
 impl<const N: usize> UdpAssociateContext<N> {
     async fn create(
-        client_session: &Session<N>,
+        client_session_id: u64,
+        check_packet_id: bool,
         client_addr: SocketAddr,
         inbound: Sender<(BytesMut, Address, SocketAddr, Session<N>)>,
     ) -> anyhow::Result<UdpAssociate<N>> {
@@ -207,7 +220,8 @@ impl<const N: usize> UdpAssociateContext<N> {
 
         let outbound = UdpSocket::bind(SocketAddrV4::new(Ipv4Addr::UNSPECIFIED, 0)).await?;
         let mut assoc = Self {
-            client_session_id: client_session.client_session_id,
+            client_session_id,
+            check_packet_id,
             client_session_filter: PacketWindowFilter::new(),
             client_addr,
             inbound,
@@ -264,7 +278,7 @@ impl<const N: usize> UdpAssociateContext<N> {
                                     continue;
                                 },
                             };
-                            if !self.validate_packet_id(session.packet_id) {
+                            if self.check_packet_id && !self.validate_packet_id(session.packet_id) {
                                 // a duplicate or stale packet is dropped, the association lives on
                                 error!("[udp] packet_id {} out of window; client={}, peer={}", session.packet_id, self.client_addr, peer_addr);
                                 continue;
